@@ -10,6 +10,31 @@ from .sym import (Sym, SInt, SReal, SBool, SSeq, CList, CDict, SRange, SOpt, SOb
 REGISTRY = {}
 
 
+def lift_native(v):
+    """native Python / numpy value -> concrete engine value (floats become exact Fractions)"""
+    import numpy as np
+    if v is None or isinstance(v, (bool, str)):
+        return v
+    if isinstance(v, (np.bool_,)):
+        return bool(v)
+    if isinstance(v, (int, np.integer)):
+        return int(v)
+    if isinstance(v, (float, np.floating)):
+        return Fraction(float(v))
+    if isinstance(v, range):
+        return SRange(v.start, v.stop, v.step)
+    if isinstance(v, np.ndarray):
+        ek = "int" if np.issubdtype(v.dtype, np.integer) else ("bool" if v.dtype == bool else "real")
+        return CList([lift_native(x) for x in v], "ndarray", ek if v.dtype != object else None)
+    if isinstance(v, list):
+        return CList([lift_native(x) for x in v], "list")
+    if isinstance(v, tuple):
+        return tuple(lift_native(x) for x in v)
+    if isinstance(v, dict):
+        return CDict({k: lift_native(x) for k, x in v.items()})
+    raise CheckerError("cannot lift native value %r" % (v,))
+
+
 class Spec:
     """describes one parameter (or result): how to make a symbolic value, which kinds it ranges over,
     how to make a concrete-shape value, and how to turn a model into a native Python value"""
@@ -27,6 +52,14 @@ class Spec:
         """value: what make() returned; ev: term -> python number"""
         raise NotImplementedError
 
+    def random(self, rng, shape=None):
+        """a native Python value of this kind (small, for differential runs and the search for failing inputs)"""
+        raise NotImplementedError
+
+    def lift(self, v):
+        """native value -> concrete engine value"""
+        return lift_native(v)
+
 
 class Int(Spec):
     def __init__(self, lo=None, hi=None, small=None):
@@ -42,6 +75,11 @@ class Int(Spec):
 
     def native(self, value, ev):
         return int(ev(value))
+
+    def random(self, rng, shape=None):
+        lo = self.lo if self.lo is not None else -3
+        hi = self.hi if self.hi is not None else lo + 9
+        return rng.randint(lo, hi)
 
 
 class ConcInt(Spec):
@@ -61,6 +99,9 @@ class Real(Spec):
     def native(self, value, ev):
         return float(ev(value))
 
+    def random(self, rng, shape=None):
+        return rng.choice([-2.5, -1.0, 0.0, 0.5, 1.0, 2.0, 3.25, rng.uniform(-4, 4)])
+
 
 class Bool(Spec):
     def variants(self):
@@ -77,6 +118,9 @@ class Const(Spec):
     def native(self, value, ev):
         v = self.v
         return float(v) if isinstance(v, Fraction) else v
+
+    def random(self, rng, shape=None):
+        return self.native(None, None)
 
 
 class OneOf(Spec):
@@ -126,6 +170,22 @@ class Seq(Spec):
             return tuple(items)
         return items
 
+    def random(self, rng, shape=None):
+        import numpy as np
+        n = shape if shape is not None else rng.randint(self.min_len, self.min_len + 4)
+        if self.ekind == "real":
+            items = [rng.choice([0.0, 1.0, -1.0, 0.5, 2.0, rng.uniform(-3, 3), rng.uniform(-3, 3)]) for _ in range(n)]
+        elif self.ekind == "int":
+            items = [rng.randint(-3, 9) for _ in range(n)]
+        else:
+            items = [rng.random() < 0.5 for _ in range(n)]
+        if self.opt:
+            items = [None if rng.random() < 0.3 else x for x in items]
+            return items if self.kind != "tuple" else tuple(items)
+        if self.kind == "ndarray":
+            return np.array(items, dtype=float if self.ekind == "real" else (bool if self.ekind == "bool" else int))
+        return tuple(items) if self.kind == "tuple" else items
+
 
 def RealSeq(**kw):
     return Seq("real", "ndarray", **kw)
@@ -168,6 +228,11 @@ class IdlRange(Spec):
     def native(self, value, ev):
         return range(int(ev(value.start)), int(ev(value.stop)), int(ev(value.step)))
 
+    def random(self, rng, shape=None):
+        n = shape if shape is not None else rng.randint(self.min_len, self.min_len + 4)
+        start, step = rng.randint(-2, 6), rng.choice([1, 1, 2, 3])
+        return range(start, start + n * step - rng.randint(0, step - 1), step)
+
 
 class IdlList(Spec):
     def __init__(self, min_len=1, as_array=False):
@@ -190,6 +255,15 @@ class IdlList(Spec):
 
     def native(self, value, ev):
         return [int(ev(x)) for x in value.items]
+
+    def random(self, rng, shape=None):
+        n = shape if shape is not None else rng.randint(self.min_len, self.min_len + 4)
+        start = rng.randint(-2, 6)
+        out, cur = [], start
+        for _ in range(n):
+            out.append(cur)
+            cur += rng.choice([1, 1, 2, 2, 3, 4])
+        return out
 
 
 class Idl(Spec):
@@ -234,12 +308,18 @@ class _FixedList(Spec):
         out = [e.native(v, ev) for e, v in zip(self.elems, value.items)]
         return tuple(out) if self.kind == "tuple" else out
 
+    def random(self, rng, shape=None):
+        shp = shape if shape is not None else [None] * len(self.elems)
+        out = [e.random(rng, shp[i]) for i, e in enumerate(self.elems)]
+        return tuple(out) if self.kind == "tuple" else out
+
 
 class Custom(Spec):
     """escape hatch: make(name, ctx, shape) / shapes(bound) / native(value, ev) given as callables"""
 
-    def __init__(self, make, shapes=None, native=None, variants=None):
+    def __init__(self, make, shapes=None, native=None, variants=None, random=None, lift=None):
         self._make, self._shapes, self._native, self._variants = make, shapes, native, variants
+        self._random, self._lift = random, lift
 
     def variants(self):
         if self._variants is None:
@@ -257,12 +337,21 @@ class Custom(Spec):
             raise CheckerError("no native form")
         return self._native(value, ev)
 
+    def random(self, rng, shape=None):
+        if self._random is None:
+            raise CheckerError("no random generator")
+        return self._random(rng, shape)
+
+    def lift(self, v):
+        return self._lift(v) if self._lift is not None else lift_native(v)
+
 
 class Contract:
     def __init__(self, target, props, params=None, requires=None, ensures=None, raises=(), loops=None, result=None,
                  inline=(), inline_only=False, slice=None, class_attrs=None, writes=(), note="", shape_bound=4,
                  native=None, name=None, self_spec=None, max_shapes=60, crosscheck=True, refute=True, assumed=False,
-                 native_call=None, cases_filter=None):
+                 native_call=None, cases_filter=None, gen=None, native_ok=True, compare_native=None, slice_note=None,
+                 not_decided=(), lemmas=None):
         self.target = target
         self.props = list(props)
         self.params = dict(params or {})
@@ -285,6 +374,13 @@ class Contract:
         self.assumed = assumed            # contract used at call sites but NOT verified here (listed as assumed)
         self.native_call = native_call    # how replay calls the real code (default: module attribute lookup)
         self.cases_filter = cases_filter
+        self.gen = gen                    # optional generator of native inputs: gen(rng, case) -> dict | None
+        self.native_ok = native_ok        # False: no native entry point (nested function / slice): no sampling
+        self.compare_native = compare_native
+        self.slice_note = slice_note
+        self.name_is_alias = False
+        self.not_decided = list(not_decided)
+        self.lemmas = dict(lemmas or {})
         self.name = name or target
         self.short = (name or target.split("::", 1)[1])
         REGISTRY[self.name] = self
